@@ -5,6 +5,7 @@ import (
 	"crypto/sha256"
 	"encoding/hex"
 	"fmt"
+	"reflect"
 	"runtime"
 
 	"github.com/cloudwego/frugal"
@@ -97,6 +98,18 @@ func Battery(between func()) (digest string, disagreement string) {
 				disagreement = fmt.Sprintf("type %s value %s: decode %v differs from the reference", s, v.Short(), d)
 			}
 			fmt.Fprintf(h, "%d|%d|%x|%d|%s\n", ti, sz.n, cn, d.n, got)
+		}
+	}
+	// mutually nested static types, valid and invalid, and a wrapper around each: accepted or
+	// rejected exactly as in a process that never called a legacy control
+	for pi, p := range universe.GraphPairs {
+		if pi%2 == 1 {
+			continue
+		}
+		for _, rt := range []reflect.Type{p.B, p.A, reflect.StructOf([]reflect.StructField{{Name: "W", Type: reflect.PtrTo(p.B), Tag: `frugal:"1,optional,S"`}})} {
+			b := make([]byte, 64)
+			e := enc(b, reflect.New(rt).Interface())
+			fmt.Fprintf(h, "G%d|%v|%v|%x\n", pi, e.err != nil, e.pan != nil, b[:e.n])
 		}
 	}
 	runtime.KeepAlive(types)
